@@ -183,9 +183,9 @@ def make_replay(plans_of: Callable[[str], list[dict[str, Any]]]) -> Callable[[di
     return replay
 
 
-def run_property(ctx: common.Context, plans_of: Callable[[str], list[dict[str, Any]]], replay_fn: Callable[[dict[str, Any]], tuple[bool, str]]) -> None:
+def run_property(ctx: common.Context, plans_of: Callable[[str], list[dict[str, Any]]], replay_fn: Callable[[dict[str, Any]], tuple[bool, str]], quick_s: float = 170, thorough_s: float = 1500) -> None:
     plans = plans_of(ctx.tier)
-    totals = run_plans(ctx, plans, 170 if not ctx.thorough else 1500, replay_fn)
+    totals = run_plans(ctx, plans, quick_s if not ctx.thorough else thorough_s, replay_fn)
     ctx.bounds = {p["name"]: p["bounds"] for p in plans}
     ctx.assumptions = [
         "graphs: a concrete menu of selections of the shipped sample suite, parsed by the real Cartesian parser (memoised per process)",
